@@ -298,6 +298,69 @@ def okCtrlList : List Stmt → Bool
   | s :: rest => okCtrl s && okCtrlList rest
 end
 
+/-! ### reference semantics with explicit nesting (`ScopeSpec` of DESIGN.md)
+
+  The scope is the STACK of enclosing groups (innermost first): their prefix arguments and, per
+  group, its middleware followed by the `Use` calls made directly in it so far.  A route's handlers
+  are the levels from the outermost to the innermost, then its own middleware; `Use` outside every
+  group is global.  Nothing is saved or restored: a group's body is denoted in the pushed scope. -/
+namespace Spec
+
+structure LScope where
+  pfxs : List Bytes          -- prefix arguments of the enclosing groups, innermost first
+  lv : List (List H)         -- per enclosing group (innermost first): its middleware ++ its `Use` calls so far
+  globals : List H
+  noRoute : List H
+  noAllowed : List H
+  deriving DecidableEq, Repr
+
+def LScope.init : LScope := ⟨[], [], [], [], []⟩
+
+/-- group middleware in effect, outermost group first -/
+def LScope.groupHandlers (ls : LScope) : List H := ls.lv.reverse.flatten
+
+/-- the concatenated (formatted) prefixes, outermost group first -/
+def LScope.fullPrefix (cfg : Cfg) (ls : LScope) : Bytes := (ls.pfxs.reverse.map cfg.fmt).flatten
+
+def mkRouteL (cfg : Cfg) (ls : LScope) (d : RouteDef) : Route :=
+  { id := d.id, main := d.main, name := d.name, methods := d.methods
+    path := storedPath cfg (ls.fullPrefix cfg) d.path
+    handlers := ls.groupHandlers ++ d.pre.flatten ++ d.post.flatten }
+
+def useL (ls : LScope) (hs : List H) : LScope :=
+  match ls.lv with
+  | [] => { ls with globals := ls.globals ++ hs }
+  | l :: outer => { ls with lv := (l ++ hs) :: outer }
+
+def push (ls : LScope) (p : Bytes) (mws : List H) : LScope :=
+  { ls with pfxs := p :: ls.pfxs, lv := mws :: ls.lv }
+
+def pop (outer inner : LScope) : LScope :=
+  { inner with pfxs := outer.pfxs, lv := outer.lv }
+
+mutual
+def denote (cfg : Cfg) (ls : LScope) : Stmt → List Route × LScope
+  | .use hs => ([], useL ls hs)
+  | .route d => ([mkRouteL cfg ls d], ls)
+  | .group p mws body =>
+    let r := denoteList cfg (push ls p mws) body
+    (r.1, pop ls r.2)
+  | .controller p mws body =>
+    let r := denoteList cfg (push ls p mws) body
+    (r.1, pop ls r.2)
+  | .resource rd mws => ((restRoutes rd).map (mkRouteL cfg (push ls (rd.base ++ rd.resName) mws)), ls)
+  | .notFound hs => ([], { ls with noRoute := hs })
+  | .notAllowed hs => ([], { ls with noAllowed := hs })
+def denoteList (cfg : Cfg) (ls : LScope) : List Stmt → List Route × LScope
+  | [] => ([], ls)
+  | s :: rest =>
+    let r1 := denote cfg ls s
+    let r2 := denoteList cfg r1.2 rest
+    (r1.1 ++ r2.1, r2.2)
+end
+
+end Spec
+
 /-! ### the chain assembled at request time (`dispatch.go: handleHTTPRequest`) -/
 
 /-- how a request resolved (the lookup itself is the table model's business) -/
